@@ -40,8 +40,10 @@ CHECK = {
                             "deviations_initializer": 3}},
     "parts": [
         {"name": "secondary", "harness": "c16_exhaust", "flavour": "asan", "env": {"ASAN_OPTIONS": _ASAN},
+         "depth": {"quick": "thorough"},   # thorough bounds cost < 40 s
          "shards": {"quick": 16, "thorough": 16}, "deadline": {"quick": 100, "thorough": 1200}},
         {"name": "initializer", "harness": "c16_exhaust", "flavour": "asan", "env": {"ASAN_OPTIONS": _ASAN},
+         "depth": {"quick": "thorough"},   # thorough bounds cost < 40 s
          "shards": {"quick": 16, "thorough": 16}, "deadline": {"quick": 60, "thorough": 600}},
     ],
 }
